@@ -13,7 +13,7 @@ func init() {
 	register(&PropDef{
 		ID:    "C12",
 		Pkgs:  []string{tr},
-		Claim: "Decides the structural part: every documented reason to refuse a request is a guard that dominates the single hand-off of a new stream to the application (the handle(s) call in the server's header processing) and the registration of the stream in the active set; the refusing arms carry the documented reset codes. It does not decide run-time behaviour of golang.org/x/net/http2.",
+		Claim: "Decides the structural part: every documented reason to refuse a request is a guard that dominates the single hand-off of a new stream to the application (the handle(s) call in the server's header processing) and the registration of the stream in the active set; the refusing arms carry the documented reset codes. It does not decide run-time behaviour of golang.org/x/net/http2. Server frame handlers dereference a looked-up stream only where the lookup succeeded and call the tap hook only when one is installed.",
 		NotDecided:  []string{"absence of crashes inside golang.org/x/net/http2 (outside the module)", "that the refusing arms emit exactly the right frames on the wire for every input", "hang-freedom of the server under hostile frame sequences"},
 		Assumptions: []string{"frame parsing by golang.org/x/net/http2 is correct", "no unsafe/reflect writes to the guarded fields"},
 		Technique:   "static analysis: must-hold branch facts (dominating guards) over go/ssa, refusing-arm unreachability, who-may-write, must-lockset",
